@@ -2762,10 +2762,10 @@ func (db *DB) snapshotPosition(ctx context.Context) (*snapshotReadPosition, erro
 // the given position. db.syncState is read without db.mu because every writer
 // mutates it while holding execSem, which the caller also holds.
 func (db *DB) snapshotWALEndOffset(pos ltx.Pos) (int64, error) {
-	if db.syncState.lastSyncedWALOffset > 0 {
-		return db.syncState.lastSyncedWALOffset, nil
-	}
 	if pos.TXID == 0 {
+		if db.syncState.lastSyncedWALOffset > 0 {
+			return db.syncState.lastSyncedWALOffset, nil
+		}
 		return WALHeaderSize, nil
 	}
 
@@ -2796,6 +2796,12 @@ func (db *DB) snapshotWALEndOffset(pos ltx.Pos) (int64, error) {
 		return WALHeaderSize, nil
 	}
 
+	// The cached offset only describes the current WAL generation once the
+	// salts above are known to match; another connection may have restarted
+	// the WAL since the last sync.
+	if db.syncState.lastSyncedWALOffset > 0 {
+		return db.syncState.lastSyncedWALOffset, nil
+	}
 	return dec.Header().WALOffset + dec.Header().WALSize, nil
 }
 
